@@ -96,12 +96,13 @@ def generate(rng, tier):
     ops.sort(key=lambda o: o["t"])
     faults = {"max_delay_us": rng.choice([0, 0, 1000, 30000]), "loop_delay_us": rng.choice([0, 300]),
               "dup_p": rng.choice([0.0, 0.1])}
-    return {"ops": ops, "faults": faults, "end": round(t_start + 11.5, 6), "react": react}
+    return {"timer_slop_us": rng.choice([0, 0, 1, 50, 300]), "ops": ops, "faults": faults, "end": round(t_start + 11.5, 6), "react": react}
 
 
 def execute(scenario, seed, overrides=None):
     out = runner.Outcome()
-    w = World(seed, FaultConfig(**scenario.get("faults", {})), overrides)
+    w = World(seed, FaultConfig(**scenario.get("faults", {})), overrides,
+              timer_slop=scenario.get("timer_slop_us", 0) / 1e6)
     stats = {"lookups": 0, "returned_true": 0, "returned_false": 0, "from_cache_without_tx": 0, "expired_unpurged_in_cache": 0,
              "peer_answers": 0, "returned_at_timeout": 0, "queries": 0}
     try:
